@@ -36,13 +36,18 @@ pub struct VolCase {
     pub ttl_every: u32,
     pub seed: u64,
     pub default_hash: bool,
+    /// client threads that share the work of every bulk phase (each key belongs to one of them)
+    #[serde(default = "one")]
+    pub clients: u8,
 }
+
+fn one() -> u8 { 1 }
 
 pub fn vol_case_strategy(thorough: bool) -> BoxedStrategy<VolCase> {
     let keys = if thorough { prop_oneof![Just(2_000u32), Just(10_000), Just(40_000), Just(100_000)].boxed() } else { prop_oneof![Just(1_500u32), Just(6_000), Just(20_000)].boxed() };
     (keys, prop_oneof![Just(2usize), Just(16), Just(256), Just(1024)], prop_oneof![Just(1usize), Just(64), Just(4096)], prop_oneof![Just(1usize), Just(4), Just(32)], prop_oneof![Just(1usize), Just(64), Just(300), Just(1000)],
-        prop_oneof![Just(16usize), Just(1 << 12), Just(1 << 17)], prop_oneof![Just(10u64), Just(4096), Just(1 << 20)], prop_oneof![Just(1u32), Just(7), Just(300), Just(3000)], prop_oneof![Just(1u32), Just(3), Just(257)], 0u32..=3, any::<u64>(), any::<bool>())
-        .prop_map(|(keys, shards, cmd_buf, pool, buf, capacity, counters, ttl_span, ttl_step, ttl_every, seed, default_hash)| VolCase { keys, shards, cmd_buf, pool, buf, capacity, counters, ttl_span, ttl_step, ttl_every, seed, default_hash }).boxed()
+        prop_oneof![Just(16usize), Just(1 << 12), Just(1 << 17)], prop_oneof![Just(10u64), Just(4096), Just(1 << 20)], prop_oneof![Just(1u32), Just(7), Just(300), Just(3000)], prop_oneof![Just(1u32), Just(3), Just(257)], 0u32..=3, any::<u64>(), (any::<bool>(), prop_oneof![2 => Just(1u8), 1 => Just(2u8), 2 => Just(4u8)]))
+        .prop_map(|(keys, shards, cmd_buf, pool, buf, capacity, counters, ttl_span, ttl_step, ttl_every, seed, (default_hash, clients))| VolCase { keys, shards, cmd_buf, pool, buf, capacity, counters, ttl_span, ttl_step, ttl_every, seed, default_hash, clients }).boxed()
 }
 
 #[derive(Clone, Copy, Debug, PartialEq)]
@@ -173,56 +178,77 @@ pub fn run_vol_case(case: &VolCase) -> (u64, Option<Failure>) {
     verif::install(None);
     let mut vol = Vol { cache, inst, clock, now: start, model: BTreeMap::new(), lookups: 0, hits: 0, added: 0, deleted: 0 };
     let universe = case.keys as u64;
+    let clients = case.clients.max(1) as usize;
+    // value / weight of a key in a phase: a pure function of (seed, key, phase), so that any client thread can compute it
+    let seed = case.seed;
+    let draw = move |key: u64, phase: u64| { let mut state = seed ^ key.wrapping_mul(0x9E3779B97F4A7C15) ^ (phase << 56); splitmix(&mut state) };
+    let ttl_span = case.ttl_span as u64;
+    let ttl_step = case.ttl_step as u64;
+    let ttl_of = move |key: u64| Duration::from_secs(1 + (key * ttl_step) % ttl_span);
+    // runs `op` for every key of `keys`, the keys dealt out to the client threads; every thread awaits its last acknowledgement
+    let bulk = |vol: &Vol, keys: &[u64], what: &str, op: &(dyn Fn(&CacheD<u64, u64>, u64) -> tinylfu_cached::cache::command::command_executor::CommandSendResult + Sync)| -> Check {
+        let results: Vec<Check> = std::thread::scope(|scope| {
+            let handles: Vec<_> = (0..clients).map(|client| {
+                let (cache, inst) = (&vol.cache, &vol.inst);
+                scope.spawn(move || -> Check {
+                    mark_harness_thread();
+                    let mut last = None;
+                    for key in keys.iter().skip(client).step_by(clients) {
+                        match op(cache, *key) { Ok(ack) => last = Some(ack), Err(_) => return Err(Failure::new("C13", "C13/volume/send-error", format!("{}: the call for key {} returned an error without shutdown", what, key))) }
+                    }
+                    if let Some(ack) = last {
+                        match await_ack(&ack, inst) {
+                            Ok(_) => {}
+                            Err(WaitError::Panicked(panics)) => return Err(Failure::new("C17", "C17/background-panic", format!("a background thread panicked during {}: {:?}", what, panics))),
+                            Err(WaitError::Stalled) => return Err(Failure::new("STALL", "stall/ack", format!("the last acknowledgement of {} never completed", what))),
+                        }
+                    }
+                    Ok(())
+                })
+            }).collect();
+            handles.into_iter().map(|handle| handle.join().unwrap_or_else(|_| Err(Failure::new("C17", "C17/caller-panic", format!("a client thread panicked during {}", what))))).collect()
+        });
+        for result in results { result?; }
+        Ok(())
+    };
     let result = (|| -> Check {
-        let mut mix = case.seed | 1;
-        let ttl_of = |key: u64| Duration::from_secs(1 + (key * case.ttl_step as u64) % case.ttl_span as u64);
+        let ttl_every = case.ttl_every as u64;
+        let with_ttl = move |key: u64| ttl_every > 0 && key % ttl_every == 0;
         // phase 1: bulk put, unawaited
-        let mut last = None;
-        for key in 0..universe {
-            let weight = 1 + (splitmix(&mut mix) % 50) as i64;
-            let value = splitmix(&mut mix);
-            let with_ttl = case.ttl_every > 0 && key % case.ttl_every as u64 == 0;
-            let sent = if with_ttl { vol.cache.put_with_weight_and_ttl(key, value, weight, ttl_of(key)) } else { vol.cache.put_with_weight(key, value, weight) };
-            match sent { Ok(ack) => last = Some(ack), Err(_) => return Err(Failure::new("C13", "C13/volume/send-error", format!("put of key {} returned an error without shutdown", key))) }
-            vol.model.insert(key, Held { value, weight, deadline: if with_ttl { Some(vol.now + ttl_of(key).as_nanos() as u64) } else { None } });
+        let keys: Vec<u64> = (0..universe).collect();
+        bulk(&vol, &keys, "the bulk put", &|cache, key| {
+            let (value, weight) = (draw(key, 1), 1 + (draw(key, 2) % 50) as i64);
+            if with_ttl(key) { cache.put_with_weight_and_ttl(key, value, weight, ttl_of(key)) } else { cache.put_with_weight(key, value, weight) }
+        })?;
+        for key in &keys {
+            vol.model.insert(*key, Held { value: draw(*key, 1), weight: 1 + (draw(*key, 2) % 50) as i64, deadline: if with_ttl(*key) { Some(vol.now + ttl_of(*key).as_nanos() as u64) } else { None } });
             vol.added += 1;
         }
-        vol.await_last(last, "the bulk put")?;
         vol.verify(universe, "after the bulk put")?;
-        // phase 2: every third key gets a new value and a lower weight; every fifth key a TTL change (set / remove)
-        let mut last = None;
-        for key in (0..universe).step_by(3) {
-            let Some(held) = vol.model.get(&key).copied() else { continue };
-            let value = splitmix(&mut mix);
-            let weight = 1 + held.weight / 2;
-            let mut builder = PutOrUpdateRequestBuilder::new(key).value(value).weight(weight);
-            let mut deadline = held.deadline;
-            if key % 5 == 0 {
-                if held.deadline.is_some() && key % 2 == 0 { builder = builder.remove_time_to_live(); deadline = None; }
-                else { builder = builder.time_to_live(ttl_of(key + 1)); deadline = Some(vol.now + ttl_of(key + 1).as_nanos() as u64); }
-            }
-            match vol.cache.put_or_update(builder.build()) { Ok(ack) => last = Some(ack), Err(_) => return Err(Failure::new("C13", "C13/volume/send-error", format!("put_or_update of key {} returned an error without shutdown", key))) }
-            vol.model.insert(key, Held { value, weight, deadline });
+        // phase 2: every third key gets a new value and a lower weight; every fifth of those a TTL change (set / remove)
+        let keys: Vec<u64> = (0..universe).step_by(3).collect();
+        let removes_ttl = move |key: u64| key % 5 == 0 && with_ttl(key) && key % 2 == 0;
+        let sets_ttl = move |key: u64| key % 5 == 0 && !(with_ttl(key) && key % 2 == 0);
+        let old_weight = move |key: u64| 1 + (draw(key, 2) % 50) as i64;
+        bulk(&vol, &keys, "the bulk update", &|cache, key| {
+            let mut builder = PutOrUpdateRequestBuilder::new(key).value(draw(key, 3)).weight(1 + old_weight(key) / 2);
+            if removes_ttl(key) { builder = builder.remove_time_to_live(); } else if sets_ttl(key) { builder = builder.time_to_live(ttl_of(key + 1)); }
+            cache.put_or_update(builder.build())
+        })?;
+        for key in &keys {
+            let held = vol.model[key];
+            let deadline = if removes_ttl(*key) { None } else if sets_ttl(*key) { Some(vol.now + ttl_of(*key + 1).as_nanos() as u64) } else { held.deadline };
+            vol.model.insert(*key, Held { value: draw(*key, 3), weight: 1 + held.weight / 2, deadline });
         }
-        vol.await_last(last, "the bulk update")?;
         vol.verify(universe, "after the bulk update")?;
         // phase 3: every fourth key is deleted, every eighth put again
-        let mut last = None;
-        for key in (0..universe).step_by(4) {
-            if vol.model.remove(&key).is_some() { vol.deleted += 1; }
-            match vol.cache.delete(key) { Ok(ack) => last = Some(ack), Err(_) => return Err(Failure::new("C13", "C13/volume/send-error", format!("delete of key {} returned an error without shutdown", key))) }
-        }
-        vol.await_last(last, "the bulk delete")?;
+        let keys: Vec<u64> = (0..universe).step_by(4).collect();
+        bulk(&vol, &keys, "the bulk delete", &|cache, key| cache.delete(key))?;
+        for key in &keys { if vol.model.remove(key).is_some() { vol.deleted += 1; } }
         vol.verify(universe, "after the bulk delete")?;
-        let mut last = None;
-        for key in (0..universe).step_by(8) {
-            let value = splitmix(&mut mix);
-            let weight = 1 + (splitmix(&mut mix) % 20) as i64;
-            match vol.cache.put_with_weight(key, value, weight) { Ok(ack) => last = Some(ack), Err(_) => return Err(Failure::new("C13", "C13/volume/send-error", format!("re-put of key {} returned an error without shutdown", key))) }
-            vol.model.insert(key, Held { value, weight, deadline: None });
-            vol.added += 1;
-        }
-        vol.await_last(last, "the bulk re-put")?;
+        let keys: Vec<u64> = (0..universe).step_by(8).collect();
+        bulk(&vol, &keys, "the bulk re-put", &|cache, key| cache.put_with_weight(key, draw(key, 4), 1 + (draw(key, 5) % 20) as i64))?;
+        for key in &keys { vol.model.insert(*key, Held { value: draw(*key, 4), weight: 1 + (draw(*key, 5) % 20) as i64, deadline: None }); vol.added += 1; }
         vol.verify(universe, "after the bulk re-put")?;
         // phase 4: time passes, one second at a time (every second's expiry shard is swept while the clock stands in it; the
         // extra nanosecond keeps the clock off the deadlines themselves): half way, then past every deadline
@@ -232,7 +258,29 @@ pub fn run_vol_case(case: &VolCase) -> (u64, Option<Failure>) {
         vol.advance(first_leg)?;
         vol.drop_expired_from_model();
         vol.verify(universe, "half way through the deadlines")?;
-        vol.advance(horizon - first_leg)?;
+        // second leg: while the sweeper collects the rest, the clients delete every seventh key that has no deadline (the
+        // sweeper and the command worker remove keys, release weight and count at the same time)
+        let doomed: Vec<u64> = vol.model.iter().filter(|(key, held)| held.deadline.is_none() && *key % 7 == 0).map(|(key, _)| *key).collect();
+        let walk: Check = std::thread::scope(|scope| {
+            let deleter = scope.spawn(|| bulk(&vol, &doomed, "the deletes during the sweeps", &|cache, key| cache.delete(key)));
+            let mut walked = Ok(());
+            let mut now = vol.now;
+            for _ in 0..(horizon - first_leg) {
+                now += 1_000_000_000;
+                vol.clock.set(now);
+                let started = vol.inst.sweeps_started.load(Ordering::Acquire);
+                let inst = &vol.inst;
+                if wait_for(inst, || if inst.sweeps_completed.load(Ordering::Acquire) >= started + 2 { Some(()) } else { None }).is_err() {
+                    walked = Err(Failure::new("STALL", "stall/sweeper", "the sweeper completed no sweep within the watchdog period".to_string()));
+                    break;
+                }
+            }
+            let deleted = deleter.join().unwrap_or_else(|_| Err(Failure::new("C17", "C17/caller-panic", "the deleting clients panicked".to_string())));
+            walked.and(deleted)
+        });
+        vol.now += (horizon - first_leg) * 1_000_000_000;
+        walk?;
+        for key in &doomed { if vol.model.remove(key).is_some() { vol.deleted += 1; } }
         vol.drop_expired_from_model();
         if vol.model.values().any(|held| held.deadline.is_some()) {
             return Err(Failure::new("INCONCLUSIVE", "harness/volume-horizon", "harness: a deadline lies beyond the horizon".to_string()));
@@ -252,5 +300,6 @@ pub fn vol_case_result(case: &VolCase) -> CaseResult {
     classes.insert(format!("shards_{}", case.shards), 1);
     classes.insert("queue_of_1".to_string(), (case.cmd_buf == 1) as u64);
     classes.insert("with_ttl_keys".to_string(), (case.ttl_every > 0) as u64);
+    classes.insert(format!("clients_{}", case.clients), 1);
     CaseResult { nontrivial: failure.is_none() && commands >= 1000, classes, suppressed: BTreeMap::new(), failure }
 }
